@@ -485,6 +485,14 @@ func c10Run(c *mon.Ctx) {
 		r := c.SubRng("coll", i)
 		kind := collKinds[i%5]
 		anchor := gen.RandShape(r, exact.KPoly, 1)
+		if i%8 == 5 {
+			// the whole configuration far outside the longitude/latitude range (planar composition does not care)
+			t := gen.Transform{Name: "far", Num: 1, Den: 1, TX: []int64{400, -1000, 0, 4096}[i/8%4] * gen.U, TY: []int64{200, 0, -300, 4096}[i/8%4] * gen.U}
+			if sh, ok := t.ApplyShape(anchor); ok {
+				anchor = sh
+				c.Count("configurations_outside_lonlat_range")
+			}
+		}
 		count := []int{0, 1, 2, 3, 5, 8}[r.Intn(6)]
 		switch r.Intn(12) {
 		case 0:
@@ -499,6 +507,7 @@ func c10Run(c *mon.Ctx) {
 		c.SetCase(func() interface{} { return c10Case{Collection: nc.Describe(), Build: build} })
 		ok := c.Try(func() {
 			if viaParse && nc.Parseable() {
+				nc.DecorateBBoxes(r)
 				thr := []int{0, 1, count, count + 1, 64}[r.Intn(5)]
 				po := &geojson.ParseOptions{IndexChildren: thr, IndexGeometry: 64, IndexGeometryKind: geometry.QuadTree}
 				build = fmt.Sprintf("Parse(IndexChildren=%d)", thr)
@@ -575,7 +584,7 @@ func c10Run(c *mon.Ctx) {
 }
 
 func init() {
-	must := []string{"circle_child_probes", "circle_child_probes_true", "collections_with_circle_children", "circle_probes", "indexed_collections", "unindexed_collections", "built_by_parse", "built_by_constructors", "searches_proper_subset", "search_early_stops", "intersects_true", "contains_true", "within_true", "indexed_vs_unindexed"}
+	must := []string{"configurations_outside_lonlat_range", "circle_child_probes", "circle_child_probes_true", "collections_with_circle_children", "circle_probes", "indexed_collections", "unindexed_collections", "built_by_parse", "built_by_constructors", "searches_proper_subset", "search_early_stops", "intersects_true", "contains_true", "within_true", "indexed_vs_unindexed"}
 	for _, k := range collKinds {
 		must = append(must, "kind "+k)
 	}
